@@ -59,7 +59,7 @@ def idx_expr(g, l):
 def cases(draw):
     g = G(draw)
     stmts = []
-    ints, strs, maps = [], [], []
+    ints, strs, maps, scalars = [], [], [], []
     has_nested = has_opt = False
     boundary = False
     alias_pairs = 0
@@ -83,7 +83,7 @@ def cases(draw):
     for step in range(steps):
         ops = [(5, "push"), (2, "remove"), (3, "read"), (3, "assign"), (2, "opassign"), (2, "reverse"), (2, "join"), (1, "clear"),
                (2, "clone"), (2, "alias"), (2, "map"), (2, "filter"), (2, "index_of"), (1, "len"), (2, "eq"), (1, "newlist"), (1, "concat"),
-               (2, "nested"), (1, "optlist"), (1, "newmap"), (2, "litfrom")]
+               (2, "nested"), (1, "optlist"), (1, "newmap"), (2, "litfrom"), (2, "mapfrom"), (2, "storefrom")]
         if strs:
             ops += [(2, "strop")]
         if maps:
@@ -161,6 +161,34 @@ def cases(draw):
             ints.append(name)
             alias_pairs += 1
             g.label("literal-from-elements")
+        elif op == "mapfrom" and len(maps) < 4:
+            # a map literal whose values are element reads must copy the values, not keep pointers into the source
+            name = "mq%d" % step
+            other = g.choice(ints)
+            pairs = [(S("a"), ("index", V(l), I(0))), (S("b"), I(g.int(0, 9)))]
+            if g.chance(60):
+                pairs.append((S("c"), ("index", V(other), ("bin", "-", ("mcall", V(other), "len", []), I(1)))))
+            stmts.append(("decl", name, None, ("map", "str", "int", pairs), ()))
+            maps.append(name)
+            alias_pairs += 1
+            g.label("map-literal-from-elements")
+        elif op == "storefrom":
+            # an element read stored into another container / a variable is a copy of the value
+            other = g.choice(ints)
+            src = ("index", V(other), I(0))
+            k = g.choice(["push", "seti", "mapset", "var"] if maps else ["push", "seti", "var"])
+            g.label("element-stored:" + k)
+            alias_pairs += 1
+            if k == "push":
+                stmts.append(("expr", ("mcall", V(l), "push", [src])))
+            elif k == "seti":
+                stmts.append(("seti", V(l), I(0), src))
+            elif k == "mapset":
+                stmts.append(("seti", V(g.choice(maps)), S(g.choice(KEYS)), src))
+            else:
+                name = "sv%d" % step
+                stmts.append(("decl", name, None, src, ()))
+                scalars.append(name)
         elif op == "nested":
             if not has_nested:
                 stmts.append(("decl", "ln", ("list", LI), ("list", [("list", [I(1)]), ("list", [I(2), I(3)])]), ()))
@@ -268,7 +296,7 @@ def cases(draw):
             else:
                 stmts.append(("expr", ("mcall", V(m), "clear", [])))
         # observable state
-        for x in ints[-6:] + strs[-2:]:
+        for x in ints[-6:] + strs[-2:] + scalars[-3:]:
             stmts.append(("print", V(x)))
         if has_nested:
             stmts.append(("print", V("ln")))
